@@ -17,7 +17,7 @@
 (* same result; cases outside the documented scope (TemplateSpace!InScope) *)
 (* are accepted without judgement.                                         *)
 (***************************************************************************)
-EXTENDS TemplateSpace, TLC, Json, IOUtils
+EXTENDS TemplateDeviations, TLC, Json, IOUtils
 
 T == JsonDeserialize(IOEnv.TRACE_FILE)
 Cases == T.cases
@@ -35,6 +35,8 @@ JudgeHeader(c) ==
     IF c.hd = H THEN <<>>
     ELSE <<V(c, "HeaderHasExactlyKeysSorted", [j \in 1..Len(H) |-> H[j].k], [j \in 1..Len(c.hd) |-> c.hd[j].k])>>
 
+\* a rejected case is named: by the smallest set of known deviations that reproduces the observation
+\* (clause "Deviation", got = the names), else by the part of the result that differs
 JudgeTemplate(c) ==
     LET t == TextOfCase(c)
         conf == T.confs[c.c]
@@ -42,10 +44,13 @@ JudgeTemplate(c) ==
     IN IF ~ InScope(t, conf, fmt) THEN <<>>
        ELSE LET r == Configure(t, conf, fmt) IN
             IF c.e = 2 THEN <<V(c, "Crashed", r.text, <<>>)>>
-            ELSE IF r.err # (c.e = 1) THEN <<V(c, IF r.err THEN "AcceptedButMustReject" ELSE "RejectedButMustAccept", r.text, c.o)>>
-            ELSE IF r.err THEN <<>>
-            ELSE (IF r.text # c.o THEN <<V(c, "Text", r.text, c.o)>> ELSE <<>>)
-                 \o (IF r.missing # ToSet(c.m) THEN <<V(c, "MissingReport", r.missing, ToSet(c.m))>> ELSE <<>>)
+            ELSE IF r.err = (c.e = 1) /\ (r.err \/ (r.text = c.o /\ r.missing = ToSet(c.m))) THEN <<>>
+            ELSE LET ex == Explanations(t, conf, fmt, c.e = 1, c.o, ToSet(c.m)) IN
+                 IF ex # {} THEN <<V(c, "Deviation", r.text, CHOOSE dv \in ex : TRUE)>>
+                 ELSE IF r.err # (c.e = 1)
+                      THEN <<V(c, IF r.err THEN "AcceptedButMustReject" ELSE "RejectedButMustAccept", r.text, c.o)>>
+                 ELSE (IF r.text # c.o THEN <<V(c, "Text", r.text, c.o)>> ELSE <<>>)
+                      \o (IF r.missing # ToSet(c.m) THEN <<V(c, "MissingReport", r.missing, ToSet(c.m))>> ELSE <<>>)
 
 Judge(c) == IF "hd" \in DOMAIN c THEN JudgeHeader(c) ELSE JudgeTemplate(c)
 
